@@ -46,15 +46,29 @@ if __name__ == "__main__":
     names = sorted(n for n in os.listdir(os.path.join(VERIF, setname)) if os.path.isdir(os.path.join(VERIF, setname, n)))
     sel = [a for a in sys.argv[2:] if not a.startswith("C")]
     pf = [a for a in sys.argv[2:] if a.startswith("C") and "-" not in a]
-    sel = [a for a in sys.argv[2:] if "-" in a]
+    sel = [a for a in sys.argv[2:] if "-" in a and not a.startswith("--")]
     if sel: names = sel
     with ThreadPoolExecutor(max_workers=8) as ex:
         for n, ok in ex.map(build, [(setname, n) for n in names]):
             if not ok: print("facts failed", n)
     def one(n): return n, run(setname, [n], pf)[n]
+    write = "--write" in sys.argv
+    allres = {}
     with ThreadPoolExecutor(max_workers=8) as ex:
         for n, fired in ex.map(one, names):
+            allres[n] = fired
             allkeys = sorted({k for v in fired.values() for k in v})
             own = n.split("-")[0]
             tag = ("FALSE-ALARM" if fired else "silent") if setname == "benign" else ("CAUGHT" if own in fired else ("other" if fired else "MISSED"))
             print("%-7s %-12s %s" % (n, tag, (sorted(fired), allkeys[:6]) if fired else ""))
+
+    if write and not sel and not pf:
+        json.dump(allres, open(os.path.join(VERIF, setname, "RESULTS.json"), "w"), indent=1, sort_keys=True)
+        if setname == "seeded":
+            exp = {}
+            for n, fired in sorted(allres.items()):
+                own = n.split("-")[0]
+                exp[n] = [own] if own in fired else []
+                if not n.startswith("C"):
+                    exp[n] = sorted(fired)
+            json.dump(exp, open(os.path.join(VERIF, "seeded", "EXPECT.json"), "w"), indent=1, sort_keys=True)
